@@ -15,7 +15,7 @@ PROPERTY = {
                'sequences': '1 operator, or 2 operators in one stage / in two consecutive stages (symbolic)', 'appended length': '0..2'},
     'outside': ['operators below list indices other than prev of an element', 'more than 2 operators'],
     'per_split_timeout': {'quick': 600, 'thorough': 1800},
-    'wall_budget': {'quick': 900, 'thorough': 3400},
+    'wall_budget': {'quick': 1500, 'thorough': 7000},
 }
 
 KEYS = ['lst', 'batch-sizes', 'a.b']
